@@ -69,7 +69,7 @@ def check(model: Model, run: Run) -> None:
         'C15.R1',
         'equal routes have equal hashes: for every NLRI class whose equality is decided by index(), what __hash__ hashes is covered '
         'by what index() is built from (a hash over the complete packed bytes needs an index over the complete packed bytes)',
-        floor=12,
+        floor=8,
     )
     classes = sorted(c for c in model.all_subclasses(NLRI) | {NLRI} if c in model.classes)
     n = 0
@@ -119,7 +119,7 @@ def check(model: Model, run: Run) -> None:
         run.cannot('only %d NLRI classes examined' % n)
 
     # ------------------------------------------------------------------ R1b index is injective over the ADD-PATH variants
-    run.rule('C15.R1b', 'routes that differ in path identifier never share an index: every index() that reads the path information separates "no path id", "ADD-PATH disabled" and a real 4-byte path id by distinct non-empty constant markers', floor=3)
+    run.rule('C15.R1b', 'routes that differ in path identifier never share an index: every index() that reads the path information separates "no path id", "ADD-PATH disabled" and a real 4-byte path id by distinct non-empty constant markers', floor=1)
     n_pi = 0
     for cq in classes:
         ci = model.classes[cq]
@@ -221,7 +221,7 @@ def check(model: Model, run: Run) -> None:
         run.cannot('only %d renderers found' % n_r)
 
     # ------------------------------------------------------------------ R4 self-comparison
-    run.rule('C15.R4', 'no __eq__ compares a field of self with the same field of self (a typo that makes distinct objects equal)', floor=60)
+    run.rule('C15.R4', 'no __eq__ compares a field of self with the same field of self (a typo that makes distinct objects equal)', floor=41)
     n_e = 0
     for fi in model.funcs.values():
         if fi.name != '__eq__' or fi.cls is None or not fi.module.rel.startswith('exabgp/bgp/'):
